@@ -73,6 +73,7 @@ int symx_live_heap(void) { return 0; }
 int symx_is_symbolic(uint64_t v) { (void)v; return 0; }
 void symx_interfere(int on) { load(); g_interfere_on = on; }
 void symx_omp_permute(int on) { (void)on; }
+void symx_omp_threads(int n) { (void)n; }
 /* store-prefix states cannot be produced natively (they are states of ANOTHER thread's partial progress): the native run executes
  * the sequential case only */
 void symx_store_log_begin(void) {}
